@@ -235,7 +235,9 @@ func (el *eventloop) open(c *conn) error {
 	out, action := el.eventHandler.OnOpen(c)
 	if out != nil {
 		if err := c.open(out); err != nil {
-			return err
+			// The connection is broken, it has been opened (OnOpen fired), so close it properly,
+			// otherwise it would stay registered without anyone ever being told about the failure.
+			return el.close(c, os.NewSyscallError("write", err))
 		}
 	}
 
